@@ -1,8 +1,16 @@
 (* Correspondence for C11: compare the model with what /repo returned on the same inputs. *)
-From CPL Require Import Model.Base Model.Rules Model.Engine Model.Evolve2D Model.Life.
+From CPL Require Import Model.Base Model.Rules Model.Engine Model.Evolve2D Model.Life Model.LifePatterns.
 Local Open Scope Z_scope.
 
-Inductive pat := PGlider | PBlock | PBlinker.
+Inductive pat := PGlider | PBlock | PBlinker
+  | PStill (cells : list (Z * Z))        (* any still life, given by its cells *)
+  | PBlinkerV                            (* the blinker started in its vertical phase *)
+  | PGliderDir (d k : nat).              (* the glider of direction d in phase k (Model/LifePatterns.gl) *)
+
+Definition pat_cells (p : pat) : list (Z * Z) :=
+  match p with
+  | PGlider => G0 | PBlock => BLK | PBlinker => BH | PStill cells => cells | PBlinkerV => BV | PGliderDir d k => gl d k
+  end.
 
 (* one cpl.evolve2d(hist, timesteps=T, apply_rule=cpl.game_of_life_rule, neighbourhood=ty, memoize=memo) call
    inside a sequence of calls made back to back in one process with the same function object *)
@@ -37,6 +45,14 @@ Definition pattern_at (p : pat) (R C : nat) (a b : Z) (k : nat) : grid :=
       end
   | PBlock => pattern_grid R C a b BLK
   | PBlinker => if Nat.even k then pattern_grid R C a b BH else pattern_grid R C (a - 1) (b + 1) BV
+  | PStill cells => pattern_grid R C a b cells
+  | PBlinkerV => if Nat.even k then pattern_grid R C a b BV else pattern_grid R C (a + 1) (b - 1) BH
+  | PGliderDir d ph =>     (* the theorems fix steps 0 and 4; in between: what the engine model says *)
+      match k with
+      | 0%nat => pattern_grid R C a b (gl d ph)
+      | 4%nat => pattern_grid R C (a + fst (gdir d)) (b + snd (gdir d)) (gl d ph)
+      | _ => nth k (match life_evolve [pattern_grid R C a b (gl d ph)] 5 with Ok (_, l) => l | Raise _ => [] end) []
+      end
   end.
 
 Definition drop_state {A B} (r : res (A * B)) : res B := bind r (fun p => Ok (snd p)).
@@ -72,7 +88,7 @@ Definition check_case (c : case) : bool :=
   | CPattern p R C a b g0 T _ obs =>
       (* the harness placed the pattern where the model places it; the engine agrees with /repo;
          and /repo's history is the one the pattern theorems state *)
-      zgrid_eqb g0 (pattern_grid R C a b (match p with PGlider => G0 | PBlock => BLK | PBlinker => BH end))
+      zgrid_eqb g0 (pattern_grid R C a b (pat_cells p))
       && res_eqb_anyexc zhist_eqb (drop_state (life_evolve [g0] T)) obs
       && res_eqb_anyexc zhist_eqb (Ok (map (pattern_at p R C a b) (seq 0 T))) obs
   | CRoll g da db obs => zgrid_eqb (roll_grid da db g) obs
